@@ -11,6 +11,7 @@ import (
 	"testing"
 	"time"
 
+	"github.com/netflix/rend/handlers/memcached/batched"
 	"pgregory.net/rapid"
 
 	"verifharness/evid"
@@ -473,4 +474,68 @@ func TestC13LongOutage(t *testing.T) {
 	}
 	rec.Case(true, fmt.Sprintf("longoutage|%d|%v", pool, outage), "outage-of-seconds-nothing-listening")
 	rec.Sample(true, map[string]interface{}{"pool": pool, "nothing_listening_ms": outage.Milliseconds(), "calls_during_outage": callers, "acknowledged": len(acked)})
+}
+
+// TestC13ColdStart: the pool for a backend that is not up yet.  Two users ask
+// for a handler of the same (not yet listening) socket a moment apart and use
+// it at once; the backend starts listening later.  Every call must end in its
+// real outcome or an error -- a set that was acknowledged is in the backend, a
+// get answers for each of its keys.
+func TestC13ColdStart(t *testing.T) {
+	rec := evid.For("C13")
+	shard, _ := evid.Shard()
+	dir, err := os.MkdirTemp("", "vhcold")
+	if err != nil {
+		t.Fatal(err)
+	}
+	defer os.RemoveAll(dir)
+	for round := 0; round < 4; round++ {
+		sock := fmt.Sprintf("%s/cold%d.sock", dir, round)
+		f := fakemc.New()
+		gap := time.Duration(20+60*((round+shard)%3)) * time.Millisecond
+		up := 350 * time.Millisecond
+		opts := batched.Opts{BatchSize: 2, BatchDelayMicros: 100, EvaluationIntervalSec: 3600}
+		type result struct {
+			who    string
+			setErr error
+			get    hres
+		}
+		results := make(chan result, 2)
+		user := func(who string, wait time.Duration) {
+			time.Sleep(wait)
+			h := batched.NewHandler(sock, opts)
+			k := "cold-" + who
+			set, _ := execHandler(h, wire.Cmd{Kind: wire.Set, Key: k, Value: []byte("stored by " + who), Flags: 7}, 0)
+			get, _ := execHandler(h, wire.Cmd{Kind: wire.Get, Keys: []string{k, "cold-absent"}}, 0)
+			results <- result{who, set.Err, get}
+		}
+		go user("first", 0)
+		go user("second", gap)
+		time.Sleep(up)
+		if err := f.ListenUnix(sock); err != nil {
+			t.Fatalf("harness: listen %s: %v", sock, err)
+		}
+		for n := 0; n < 2; n++ {
+			select {
+			case r := <-results:
+				e, stored := f.Live()["cold-"+r.who]
+				if r.setErr == nil && (!stored || string(e.Value) != "stored by "+r.who) {
+					p := rec.Violation("TestC13ColdStart", map[string]interface{}{"user": r.who, "second_user_after_ms": gap.Milliseconds()})
+					t.Fatalf("C13 cold start: the %s user's set (handler requested %v after the first, backend listening after %v) was acknowledged, but the backend holds %v %q; replay %s", r.who, gap, up, stored, e.Value, p)
+				}
+				if r.get.Err == nil {
+					if len(r.get.Hits) != 2 || (r.setErr == nil && (r.get.Hits[0] == nil || string(r.get.Hits[0].Value) != "stored by "+r.who)) || r.get.Hits[1] != nil {
+						p := rec.Violation("TestC13ColdStart", map[string]interface{}{"user": r.who, "second_user_after_ms": gap.Milliseconds()})
+						t.Fatalf("C13 cold start: the %s user's get of [its key, an absent key] ended without error but answered %+v; replay %s", r.who, r.get, p)
+					}
+				}
+			case <-time.After(90 * time.Second):
+				var dump [1 << 17]byte
+				k := runtime.Stack(dump[:], true)
+				t.Fatalf("C13 cold start: a user's calls are still blocked 90 s after the backend started listening; goroutines:\n%s", dump[:k])
+			}
+		}
+		rec.Case(true, fmt.Sprintf("coldstart|%d|%v", round, gap), "pool-created-before-the-backend-is-up")
+	}
+	rec.Sample(true, map[string]interface{}{"cold_start_rounds": 4, "backend_listens_after_ms": 350})
 }
